@@ -275,6 +275,14 @@ def main_check(plugin, tier, replay=None):
         obligations, discharged, problems, axioms = audit(plugin.LEAN_MODULES, plugin.THEOREMS)
         for p in problems:
             broken.append({"kind": "proof-obligation", "name": p, "detail": ""})
+    # 2b. thorough: independent re-check of the compiled proofs with leanchecker
+    leanchecker = None
+    if tier == "thorough" and not broken:
+        mods = [m for m in plugin.LEAN_MODULES if ".Props." in m]
+        rc, out, err = sh(["lake", "env", "leanchecker"] + mods, cwd=LEAN, timeout=3600)
+        leanchecker = "ok" if rc == 0 else "failed"
+        if rc != 0:
+            broken.append({"kind": "proof-obligation", "name": "leanchecker " + " ".join(mods), "detail": (out + err)[-400:]})
     # 3. correspondence ----------------------------------------------------
     search_rounds = 1 if not broken else (3 if tier == "quick" else 6)
     evaluations = 0
@@ -443,7 +451,8 @@ def main_check(plugin, tier, replay=None):
             "input_distribution": dict(sorted(hist.items())),
             "broken_obligations": broken, "diagnostics": diagnostics[:20],
             "extracted": extracted.get(pid, extracted.get("common", {})) if extracted else {},
-            "known_findings_hit": [k["id"] for k in known_hits],
+            "known_findings_hit": sorted({k["id"] for k in known_hits}),
+            "leanchecker": leanchecker,
         },
         "assumptions": list(getattr(plugin, "ASSUMPTIONS", [])),
     }
